@@ -104,7 +104,7 @@ def part1(run):
             rows = [[gen_elem(rnd, 'nnnntbe') for _ in range(nn)] for _ in range(m)]
             return ('arr', rows), shape
 
-        f = rnd.choice(['bin'] * 6 + ['un', 'IF', 'IF', 'IFS', 'IFERROR', 'IFNA', 'ABS', 'NOT', 'ISERROR'])
+        f = rnd.choice(['bin'] * 6 + ['un', 'IF', 'IF', 'IFS', 'IFERROR', 'IFNA', 'ABS', 'NOT', 'ISERROR', 'twice', 'twice'])
         compatible = True      # incompatible shapes raise BroadcastError out of calculate(): outside this property (part 2 checks the raise)
         base = rnd.choice(SHAPES)
 
@@ -113,7 +113,19 @@ def part1(run):
                 return rnd.choice(SHAPES)
             m, nn = base
             return rnd.choice([(1, 1), (1, nn), (m, 1), (m, nn), (m, nn)])
-        if f == 'bin':
+        if f == 'twice':
+            # one range read by two operators that take a blank differently (0, "", or by the partner's type): each reads
+            # the cells as they are, not as the other has prepared them
+            m, nn = base
+            r0 = rnd.choice([1, 6]) + rnd.randint(0, 4 - m); c0 = 1 + rnd.randint(0, 4 - nn)
+            a = ('ref', (0, r0, r0 + m - 1, c0, c0 + nn - 1))
+            o1, o2 = rnd.sample(['+', '&', '=', '*', '<>', '&', '+'], 2)
+            inner = ('bin', o2, a, ('lit', rnd.choice([0, 1, '', 'x'])))
+            e = rnd.choice([('bin', o1, a, inner), ('bin', o1, inner, a),
+                            ('call', 'IF', [('bin', '=', a, ('lit', '')), ('lit', 'blank'), ('bin', '*', a, ('lit', 2))]),
+                            ('call', 'IF', [('bin', '>', ('bin', '+', a, ('lit', 0)), ('lit', 0)), ('bin', '&', a, ('lit', '!')), ('bin', '=', a, ('lit', ''))])])
+            shapes = [base, base]
+        elif f == 'bin':
             a, s1 = arg(compat_shape()); b, s2 = arg(compat_shape())
             e = ('bin', rnd.choice(BIN), a, b); shapes = [s1, s2]
         elif f == 'un':
